@@ -82,7 +82,9 @@ impl Monitor for Mon {
                         self.interesting += 1;
                         out.count("open_after_in_block_drift");
                     }
-                    if spot1 < lo || spot1 > hi {
+                    // the upper edge is exact for an integer price (spot <= p(1+l) iff spot <= floor(p(D+l)/D)); at the lower
+                    // edge one raw unit of rounding is conceded (floor instead of ceil)
+                    if spot1 < lo || spot1 > hi.saturating_sub(1) {
                         return Some(
                             Violation::new(
                                 "open_left_price_outside_band",
@@ -205,7 +207,7 @@ pub fn prop() -> HistProp {
         max_ops: (40, 100),
         cases: (20_000, 400_000),
         make: || Box::new(Mon::default()),
-        rule: "deployments whose vAMMs all have a fluctuation limit from {0.1%, 1%, 2%, 5%, 12.5%, 30%}, many trades per block by several traders drifting the price, whale trades sized from the reserves to land at 50% / 90% / 99% / 100% / 101% / 150% of the limit, both directions, block boundaries in between, closes with partial-close fractions from {0, 25%, 33.3%, 50%, 95%, 100%}. The harness records each vAMM's spot price at the first moment of every block (= price at the end of the previous block) as reference. (a) a successful OpenPosition leaving size != 0 leaves spot inside [floor(ref*(D-l)/D), ceil(ref*(D+l)/D)]; (b) if spot is already outside that band such an OpenPosition must fail; (c) a successful ClosePosition with fraction < 100%: position gone => spot inside the band; position remains => |size| fell by exactly floor(|size|*fraction/D). Nothing is asserted in the vAMM's creation block (deployments advance one block first). Non-trivial: an open or close in a block in which the price had already moved, or an open attempt with the price already outside the band. Distinct by digest of (cfg, ops).",
+        rule: "deployments whose vAMMs all have a fluctuation limit from {0.1%, 1%, 2%, 5%, 12.5%, 30%}, many trades per block by several traders drifting the price, whale trades sized from the reserves to land at 50% / 90% / 99% / 100% / 101% / 150% of the limit, both directions, block boundaries in between, closes with partial-close fractions from {0, 25%, 33.3%, 50%, 95%, 100%}. The harness records each vAMM's spot price at the first moment of every block (= price at the end of the previous block) as reference. (a) a successful OpenPosition leaving size != 0 leaves spot inside [floor(ref*(D-l)/D), floor(ref*(D+l)/D)] (the upper edge is exact for an integer price); (b) if spot is already outside that band such an OpenPosition must fail; (c) a successful ClosePosition with fraction < 100%: position gone => spot inside the band; position remains => |size| fell by exactly floor(|size|*fraction/D). Nothing is asserted in the vAMM's creation block (deployments advance one block first). Non-trivial: an open or close in a block in which the price had already moved, or an open attempt with the price already outside the band. Distinct by digest of (cfg, ops).",
         assumptions: &["the band is evaluated with integer rounding in the lenient direction (one raw price unit)"],
         eval_counter: None,
     }
